@@ -37,6 +37,7 @@ def main():
         rest = sys.argv[5:]
     props = [sid[:3]]
     tier = "quick"
+    scratch = "--scratch" in rest
     for a in rest:
         if a.startswith("--props="):
             props = a.split("=", 1)[1].split(",")
@@ -66,9 +67,20 @@ def main():
         res["demo_output_changed"] = (changed.stdout + changed.stderr)[-600:]
         res["confirmed"] = ("passed" in res["test_suite_with_change"] and not re.search(r"\d+ (failed|error)", res["test_suite_with_change"])
                             and clean.returncode == 0 and changed.returncode != 0)
+        if scratch:
+            # detection against the scratch worktree (same machinery, PYVC_REPO points the checks at it):
+            # lets several seeds of DIFFERENT properties be checked side by side; /repo is not touched
+            res["checks"] = {}
+            for p in props:
+                c = sh("cd %s && PYVC_REPO=%s ./check %s --tier %s" % (VERIF, wt, p, tier))
+                res["checks"][p] = summarise(c, tier)
+                res["checks"][p]["tree"] = "scratch worktree (PYVC_REPO)"
     finally:
         sh("git -C /repo worktree remove --force %s" % wt)
         sh("rm -rf %s" % wt)
+    if scratch:
+        sh("cd %s && git checkout -- evidence/%s.json" % (VERIF, sid[:3]))
+        return finish(res, sid, recheck, diff, demo, agent_meta, keep)
     # detection against /repo itself
     res["checks"] = {}
     st = sh("git -C /repo status --porcelain")
@@ -83,18 +95,26 @@ def main():
         else:
             for p in props:
                 c = sh("cd %s && ./check %s --tier %s" % (VERIF, p, tier))
-                out = c.stdout
-                viol = [l for l in out.splitlines() if l.startswith("VIOLATION")]
-                detail = [l.strip() for l in out.splitlines() if l.startswith("  obligation=") or l.startswith("  clause=")]
-                res["checks"][p] = {"tier": tier, "exit": c.returncode, "violations": len(viol),
-                                    "from_proof_obligations": sum(1 for d in detail if d.startswith("obligation=")),
-                                    "from_bounded_layer": sum(1 for d in detail if d.startswith("clause=")),
-                                    "replayed": sum(1 for l in viol if "no-failing-input-found" not in l),
-                                    "first": detail[:3], "summary": out.strip().splitlines()[-1][:200] if out.strip() else c.stderr[-200:]}
+                res["checks"][p] = summarise(c, tier)
     finally:
         sh("git -C /repo checkout -- .")
         # evidence files were rewritten by the runs on the changed tree: restore the committed ones
         sh("cd %s && git checkout -- evidence" % VERIF)
+    return finish(res, sid, recheck, diff, demo, agent_meta, keep)
+
+
+def summarise(c, tier):
+    out = c.stdout
+    viol = [l for l in out.splitlines() if l.startswith("VIOLATION")]
+    detail = [l.strip() for l in out.splitlines() if l.startswith("  obligation=") or l.startswith("  clause=")]
+    return {"tier": tier, "exit": c.returncode, "violations": len(viol),
+            "from_proof_obligations": sum(1 for d in detail if d.startswith("obligation=")),
+            "from_bounded_layer": sum(1 for d in detail if d.startswith("clause=")),
+            "replayed": sum(1 for l in viol if "no-failing-input-found" not in l),
+            "first": detail[:3], "summary": out.strip().splitlines()[-1][:200] if out.strip() else c.stderr[-200:]}
+
+
+def finish(res, sid, recheck, diff, demo, agent_meta, keep):
     res["detected"] = any(v["violations"] > 0 for v in res["checks"].values())
     d = os.path.join(VERIF, "seeded", sid)
     os.makedirs(d, exist_ok=True)
